@@ -81,9 +81,31 @@ class Sys:
             kw["baseline"] = self.base_raw if np.ndim(self.base_raw) == 0 else np.asarray(self.base_raw, dtype=float)
         if w is not None:
             kw["w"] = w
+        # The same registered values are reached along different documented routes (chosen from the system's content, so a case
+        # always takes the same one): everything through the constructor / register_system, or K, baseline and the two bounds
+        # registered afterwards one at a time.  Every estimator-level check thereby also covers the registration paths.
+        route = int(abs(float(np.sum(self.A))) * 1e6) % 4 if with_system else 0
+        if route in (2, 3):
+            est = dreye.ReceptorEstimator(filt, domain=1.0, **({"w": w} if w is not None else {}))
+            est.register_system(src)
+            lb_a, ub_a = self.lb_arg(), self.ub_arg()
+            for which in (("lb", "ub") if route == 2 else ("ub", "lb")):
+                if which == "lb" and lb_a is not None:
+                    est.register_bounds(lb=lb_a)
+                if which == "ub" and ub_a is not None:
+                    est.register_bounds(ub=ub_a)
+            if "K" in kw:
+                est.register_adaptation(kw["K"])
+            if "baseline" in kw:
+                est.register_baseline(kw["baseline"])
+            return est
         est = dreye.ReceptorEstimator(filt, domain=1.0, **kw)
         if with_system:
-            est.register_system(src, lb=self.lb_arg(), ub=self.ub_arg())
+            if route == 1:
+                est.register_system(src)
+                est.register_bounds(lb=self.lb_arg(), ub=self.ub_arg())
+            else:
+                est.register_system(src, lb=self.lb_arg(), ub=self.ub_arg())
         return est
 
 
